@@ -931,7 +931,132 @@ def check_wrap(pid, tier, replay=None):
                       "real mode: legacy/isal_ pairs on random valid inputs, failed-self-test refusals with memory compare, XTS same-key refusals")
 
 
-CHECKS = {"C13": check_wrap, "C16": check_wrap, "C17": check_c17, "C01": check_hash, "C06": check_hash, "C11": check_hash, "C15": check_c15, "C12": check_c12, "C09": check_c09, "C20": check_c20, "C08": check_c08, "C14": check_c14, "C05": check_mh, "C10": check_mh,
+def abi_generate(variant):
+    """T-route of C19/C18: regenerate the abstract instruction records + certificates from the objects of the
+    library built from the current tree; returns (build dir, report dict, stdout)"""
+    import subprocess, build_repo
+    b = build_repo.get_build(variant)
+    rep = os.path.join(b, "x86abs_report.json")
+    r = subprocess.run(["python3", os.path.join(vlib.VERIF, "tools", "gen_x86abs.py"), "--variant", variant, "--build", b,
+                        "--out", os.path.join(vlib.LEAN, "IsalVerif"), "--report", rep], capture_output=True, text=True)
+    if r.returncode:
+        raise RuntimeError("gen_x86abs failed: " + (r.stderr or r.stdout)[-2000:])
+    return b, json.load(open(rep)), r.stdout
+
+
+def abi_harness(b):
+    import subprocess, hashlib
+    srcs = [os.path.join(vlib.HARNESS, x) for x in ("drv_abi.c", "abi_tramp.asm")]
+    h = hashlib.sha256(b"".join(open(x, "rb").read() for x in srcs)).hexdigest()[:12]
+    exe = os.path.join(b, "drv_abi." + h)
+    if not os.path.exists(exe):
+        obj = exe + ".tramp.o"
+        r = subprocess.run(["nasm", "-f", "elf64", srcs[1], "-o", obj], capture_output=True, text=True)
+        r2 = subprocess.run(["gcc", "-O1", "-g", "-I", os.path.join(b, "src", "include"), "-I", os.path.join(b, "src"), "-o", exe + ".tmp",
+                             srcs[0], obj, os.path.join(b, "isa-l_crypto.a")], capture_output=True, text=True)
+        if r.returncode or r2.returncode:
+            raise RuntimeError("drv_abi build failed: " + r.stderr[-500:] + r2.stderr[-1500:])
+        os.replace(exe + ".tmp", exe)
+    return exe
+
+
+ABI_THMS = ["IsalVerif.X86Abs.checkFn_sound", "IsalVerif.X86Abs.checkFn_static", "IsalVerif.X86Abs.checkFn_noForbidden",
+            "IsalVerif.Props.C19.c19", "IsalVerif.Props.C19.c19_summary", "IsalVerif.Props.C19.checked",
+            "IsalVerif.GenProps.X86.all_objects", "IsalVerif.GenProps.X86.tab_masks", "IsalVerif.GenProps.X86.class_masks"]
+C18_THMS = ["IsalVerif.Props.C18.c18_static_stores", "IsalVerif.GenProps.X86Statics.statics_ok",
+            "IsalVerif.GenProps.X86Statics.written_ok", "IsalVerif.GenProps.X86Statics.counts"]
+
+
+def check_c19(pid, tier, replay=None):
+    """callee-saved state: verified certificate checker over the translated disassembly of every function"""
+    import subprocess
+    chk = vlib.Check(pid, tier)
+    variants = ["default"] if tier == "quick" else ["default", "fips"]
+    reps = {}
+    for v in variants:
+        b, rep, out = abi_generate(v)
+        reps[v] = (b, rep)
+        chk.oblige("translator+python twin: every function of the %s build has a certificate" % v, not rep["fail"],
+                   "functions=%d records=%d fail=%s" % (rep["functions"], rep["records"], list(rep["fail"].items())[:3]))
+    thms = list(ABI_THMS)
+    targets = []
+    if "fips" in variants:
+        thms += ["IsalVerif.GenProps.X86Fips.all_objects", "IsalVerif.GenProps.X86Fips.class_masks"]
+        targets = ["IsalVerif.GenProps.X86Fips.All"]
+    modsrc = "IsalVerif.Props.C19"
+    lean_failed = vlib.lean_obligations(chk, modsrc, thms if "fips" not in variants else ABI_THMS, extra_targets=targets)
+    if "fips" in variants and not lean_failed:
+        ax, raw = vlib.print_axioms("IsalVerif.GenProps.X86Fips.All", thms[len(ABI_THMS):])
+        for t in thms[len(ABI_THMS):]:
+            good = ax.get(t) is not None and set(ax[t]) <= vlib.ALLOWED_AXIOMS
+            chk.oblige("lean:" + t, good, "axioms=%s" % (ax.get(t),))
+            if not good:
+                lean_failed.append((t, "axioms=%s" % (ax.get(t),)))
+    # which functions fail (python twin of the kernel check names them)
+    failing = {}
+    for v, (b, rep) in reps.items():
+        for fn, why in rep["fail"].items():
+            failing[fn] = why
+    b, rep = reps["default"]
+    exe = abi_harness(b)
+    r = subprocess.run([exe, str(chk.seed)], capture_output=True, text=True, timeout=3600)
+    lines = [l for l in r.stdout.split("\n") if l]
+    mons = [l for l in lines if l.startswith("MONITOR")]
+    tot = [l for l in lines if l.startswith("C19 total")]
+    m = re.search(r"calls=(\d+) distinct_entry_points=(\d+) violations=(\d+) selftest=(\w+)", tot[0]) if tot else None
+    ok = r.returncode == 0 and not mons and m and m.group(4) == "ok"
+    chk.oblige("trampoline harness drv_abi: rsp/rbx/rbp/r12-r15/DF/MXCSR/x87CW/red zone above frame identical after every call", ok,
+               tot[0] if tot else "exit=%d" % r.returncode)
+    found = False
+    seen = set()
+    for l in mons:
+        t = l.split()
+        key = (t[1], t[2] if len(t) > 2 else "")
+        if key in seen:
+            continue
+        seen.add(key)
+        found = True
+        chk.violation("%s %s" % key, {"kind": "input", "monitor": l[:500], "args": [str(chk.seed)],
+                                      "static_diagnostic": failing.get(key[1].replace("fn=", ""), None),
+                                      "broken_obligations": [f[0] for f in lean_failed]},
+                      match={"monitor": key[0], "fn": key[1]})
+    if not ok and not mons:
+        found = True
+        chk.violation("drv_abi harness failed (exit=%d)" % r.returncode, {"kind": "obligation", "obligation": "drv_abi", "detail": r.stdout[-500:] + r.stderr[-500:]}, no_input=True)
+    if replay:
+        print("replay: %s" % mons[:3])
+        return 1 if found else 0
+    if (lean_failed or failing) and not found:
+        if failing:
+            for fn, why in list(failing.items())[:10]:
+                chk.violation("certificate check fails for %s: %s" % (fn, why),
+                              {"kind": "obligation", "obligation": "checkFn %s" % fn, "detail": why,
+                               "broken_obligations": [f[0] for f in lean_failed]}, no_input=True, match={"fn": fn})
+        else:
+            for name, detail in lean_failed:
+                chk.violation("Lean obligation no longer checks: %s" % name, {"kind": "obligation", "obligation": name, "detail": detail}, no_input=True)
+    # translator table validation (trusted base shrink): undeclared register writes of every instruction form in use
+    ins = subprocess.run(["python3", os.path.join(vlib.VERIF, "tools", "insnform.py"), b], capture_output=True, text=True)
+    chk.oblige("instruction table validation (tools/insnform.py): no form writes a register its table entry does not declare",
+               ins.returncode == 0, ins.stdout.strip()[-300:])
+    if ins.returncode != 0:
+        chk.violation("instruction table tools/x86tab.py disagrees with the CPU", {"kind": "obligation", "obligation": "insnform", "detail": ins.stdout[-1500:]}, no_input=True)
+    chk.cov["evaluations"] = int(m.group(1)) if m else 0
+    chk.cov["distinct_nontrivial"] = int(m.group(2)) if m else 0
+    chk.cov["model"] = {v: {k: rp[k] for k in ("functions", "instructions", "records", "labels", "objects")} for v, (bb, rp) in reps.items()}
+    chk.cov["private_convention_kernels"] = rep["private"]
+    chk.trusted = ["Lean 4.33.0 kernel; axioms allowed: propext, Classical.choice, Quot.sound",
+                   "translator tools/gen_x86abs.py + instruction table tools/x86tab.py (objdump decoding; unknown mnemonic/operand => `unsupported`, "
+                   "anything touching DF/MXCSR/x87 CW/MMX => `forbidden`, both rejected by the checker); table validated dynamically by tools/insnform.py",
+                   "A-frame: stores through addresses that are not stack-derived+constant do not hit tracked save slots (28 functions use [rsp+reg+k] into local arrays)",
+                   "externals memcpy/__memcpy_chk/memcmp/memmove/strlen/__stack_chk_fail obey the SysV ABI; stack arithmetic does not wrap",
+                   "private-convention class (16 internal kernels, computed summaries checked in the kernel; callers checked against them) chosen by the translator from visibility/address-taken/callers"]
+    chk.assumptions = ["DF clear on entry (ABI)", "x86-64 SysV"]
+    return chk.finish(level="proof", rule="static: every function of every object, every path (certificates = abstract states at jump targets, re-checked by decide +kernel); "
+                      "dynamic: trampoline calls of 390 entry points x length classes comparing callee-saved registers, DF, MXCSR, x87 CW and a canary above the frame")
+
+
+CHECKS = {"C19": check_c19, "C13": check_wrap, "C16": check_wrap, "C17": check_c17, "C01": check_hash, "C06": check_hash, "C11": check_hash, "C15": check_c15, "C12": check_c12, "C09": check_c09, "C20": check_c20, "C08": check_c08, "C14": check_c14, "C05": check_mh, "C10": check_mh,
           "C02": check_aes, "C03": check_aes, "C04": check_aes, "C07": check_aes}
 
 
